@@ -30,6 +30,8 @@ import BHS.Model.Query
 import BHS.Spec.BestChain
 import BHS.Proofs.QueryTreeCommon
 import Driver.Ops.Chain
+import BHS.Proofs.Fields
+import BHS.Props.C01
 
 set_option linter.unusedSectionVars false
 
@@ -385,5 +387,94 @@ example (st : Driver.Ops.Chain.S) (a b : String) :
 example (st : Driver.Ops.Chain.S) (hs : List String) :
     ∃ out, Driver.Ops.Chain.handle st ("common" :: hs) = some (st, out) := by
   simp only [Driver.Ops.Chain.handle]; split <;> exact ⟨_, rfl⟩
+
+/-! ### for every store reachable by ingestion
+The theorems above restated for `run cfg [g] hist` — the store after ANY ingestion history (reorganisations, stale
+blocks, orphans, duplicates, forbidden and zero-work headers) from a root row `g`; the chain invariant comes from
+`C01_canonical`, so no `Inv` / `WF` / `Nodup` hypothesis is left. -/
+section Reachable
+open BHS.Props.C01 (IsRoot HashAvoids C01_canonical)
+
+theorem C04_anc_iff_chainTo_reachable (cfg : Cfg H) (g : Row H) (hg : IsRoot g) (hz : HashAvoids cfg g.prev)
+    (hist : List (Src H)) (a r : Row H) (hr : r ∈ run cfg [g] hist) (hc : connected r) :
+    Anc (run cfg [g] hist) a r ↔ a ∈ chainTo (run cfg [g] hist) r :=
+  C04_anc_iff_chainTo cfg _ (C01_canonical cfg g hg hz hist).1.1 a r hr hc
+
+theorem C04_byhash_reachable (cfg : Cfg H) (g : Row H) (hg : IsRoot g) (hz : HashAvoids cfg g.prev)
+    (hist : List (Src H)) (h : H) (r : Row H) :
+    (byHash (run cfg [g] hist) h = some r ↔ r ∈ run cfg [g] hist ∧ r.hash = h) ∧
+      (byHash (run cfg [g] hist) h = none ↔ ∀ r ∈ run cfg [g] hist, r.hash ≠ h) :=
+  C04_byhash _ (C01_canonical cfg g hg hz hist).1.1.nodup h r
+
+theorem C04_byheight_lc_reachable (cfg : Cfg H) (g : Row H) (hg : IsRoot g) (hz : HashAvoids cfg g.prev)
+    (hist : List (Src H)) (t : Row H) (ht : getTip (run cfg [g] hist) = some t)
+    (lo hi : Int) (k : Nat) (h1 : lo ≤ (k : Int)) (h2 : (k : Int) ≤ hi) (h3 : k ≤ t.height) :
+    ∃ r ∈ byHeightRange (run cfg [g] hist) lo hi, r.st = .lc ∧ r.height = k :=
+  C04_byheight_lc cfg _ (C01_canonical cfg g hg hz hist).1 t ht lo hi k h1 h2 h3
+
+theorem C04_tip_longest_reachable (cfg : Cfg H) (g : Row H) (hg : IsRoot g) (hz : HashAvoids cfg g.prev)
+    (hist : List (Src H)) : ∃ t, getTip (run cfg [g] hist) = some t ∧ IsBest (run cfg [g] hist) t :=
+  C04_tip_longest cfg _ (C01_canonical cfg g hg hz hist).1
+
+theorem C04_tips_reachable (cfg : Cfg H) (g : Row H) (hg : IsRoot g) (hz : HashAvoids cfg g.prev)
+    (hist : List (Src H)) :
+    ∃ t, getTip (run cfg [g] hist) = some t ∧ ∀ r, r ∈ allTips (run cfg [g] hist) ↔
+      r = t ∨ (r ∈ run cfg [g] hist ∧ r.st ≠ .lc ∧ ¬ ∃ c ∈ run cfg [g] hist, c.st ≠ .lc ∧ c.prev = r.hash) :=
+  C04_tips cfg _ (C01_canonical cfg g hg hz hist).1
+
+theorem C04_tips_leaf_reachable (cfg : Cfg H) (g : Row H) (hg : IsRoot g) (hz : HashAvoids cfg g.prev)
+    (hist : List (Src H)) :
+    ∃ t, getTip (run cfg [g] hist) = some t ∧ ∀ r, r ∈ allTips (run cfg [g] hist) ↔
+      r = t ∨ (r.st ≠ .lc ∧ Leaf (run cfg [g] hist) r) :=
+  C04_tips_leaf cfg _ (C01_canonical cfg g hg hz hist).1
+
+/-- (connected `r` only: the full statement fails for late-parent orphans, `C04_ancestors_counterexample`, whose
+    store `cexStore` IS reachable: `cexStore_eq`) -/
+theorem C04_ancestors_partial_reachable (cfg : Cfg H) (g : Row H) (hg : IsRoot g) (hz : HashAvoids cfg g.prev)
+    (hist : List (Src H)) (r a : Row H) (hr : r ∈ run cfg [g] hist) (ha : a ∈ run cfg [g] hist) (hc : connected r) :
+    (a = r → ancestors (run cfg [g] hist) r.hash a.hash = .ok []) ∧
+    (Anc (run cfg [g] hist) a r → a ≠ r →
+      ancestors (run cfg [g] hist) r.hash a.hash = .ok (pathDown (run cfg [g] hist) r a) ∧
+      (pathDown (run cfg [g] hist) r a).head? = some r ∧ (pathDown (run cfg [g] hist) r a).getLast? = some a ∧
+      Linked (run cfg [g] hist) (pathDown (run cfg [g] hist) r a) ∧
+      ∀ x, x ∈ pathDown (run cfg [g] hist) r a ↔ Anc (run cfg [g] hist) a x ∧ Anc (run cfg [g] hist) x r) ∧
+    (¬ Anc (run cfg [g] hist) a r → ancestors (run cfg [g] hist) r.hash a.hash =
+      .error (if r.height < a.height then AncErr.ancestorHigher else AncErr.notSameChain)) :=
+  C04_ancestors_partial cfg _ (C01_canonical cfg g hg hz hist).1.1 r a hr ha hc
+
+/-- a request that contains the root itself (which every reachable store still holds): `return nil, nil` -/
+theorem C04_common_height0_reachable (cfg : Cfg H) (g : Row H) (hg : IsRoot g) (hz : HashAvoids cfg g.prev)
+    (hist : List (Src H)) (rows : List (Row H)) (hrows : ∀ r ∈ rows, r ∈ run cfg [g] hist) (hg' : g ∈ rows) :
+    commonAncestor (run cfg [g] hist) (rows.map (·.hash)) = .nilResult :=
+  C04_common_height0 _ (C01_canonical cfg g hg hz hist).1.1.nodup rows hrows g hg' hg.2.2.1
+
+theorem C04_common_partial_reachable (cfg : Cfg H) (g : Row H) (hg : IsRoot g) (hz : HashAvoids cfg g.prev)
+    (hist : List (Src H)) (rows : List (Row H))
+    (hrows : ∀ r ∈ rows, r ∈ run cfg [g] hist ∧ connected r) (m : Nat) (hm1 : 1 ≤ m)
+    (hle : ∀ r ∈ rows, m ≤ r.height) (hat : ∃ r ∈ rows, r.height = m) (hcap : m ≤ 2147483647) :
+    ∃ c, commonAncestor (run cfg [g] hist) (rows.map (·.hash)) = .found c ∧
+      (∀ r ∈ rows, Anc (run cfg [g] hist) c r) ∧ c.height < m ∧
+      ∀ c', (∀ r ∈ rows, Anc (run cfg [g] hist) c' r) → c'.height < m → c'.height ≤ c.height :=
+  C04_common_partial cfg _ (C01_canonical cfg g hg hz hist).1.1 rows hrows m hm1 hle hat hcap
+
+/-- every reachable store still holds its root row -/
+theorem C04_root_stored_reachable (cfg : Cfg H) (g : Row H) (hg : IsRoot g) (hz : HashAvoids cfg g.prev)
+    (hist : List (Src H)) : g ∈ run cfg [g] hist :=
+  (WF.run hg.1 hz hist (C01.C01_inv_init cfg g hg).1 (List.mem_singleton.2 rfl)).2
+
+theorem exAvoids : HashAvoids exCfg exRoot.prev := fun x => Nat.succ_ne_zero x.nonce
+
+/-- non-vacuity on the seven-row history of this file (fork, stale branch, orphan branch) -/
+example : IsRoot exRoot ∧ HashAvoids exCfg exRoot.prev ∧ allTips (run exCfg [exRoot] exHist) = [r4, r6, r7] ∧
+    (∃ t, getTip (run exCfg [exRoot] exHist) = some t ∧ ∀ r, r ∈ allTips (run exCfg [exRoot] exHist) ↔
+      r = t ∨ (r.st ≠ .lc ∧ Leaf (run exCfg [exRoot] exHist) r)) :=
+  ⟨by decide, exAvoids, by decide, C04_tips_leaf_reachable exCfg exRoot (by decide) exAvoids exHist⟩
+
+/-- … and for the walks: the stale leaf `r6` is a connected row of the reached store, the root a proper ancestor -/
+example : r6 ∈ run exCfg [exRoot] exHist ∧ exRoot ∈ run exCfg [exRoot] exHist ∧ connected r6 ∧
+    ancestors (run exCfg [exRoot] exHist) r6.hash exRoot.hash = .ok [r6, r2, exRoot] ∧
+    commonAncestor (run exCfg [exRoot] exHist) [4, 6] = .found exRoot := by decide
+
+end Reachable
 
 end BHS.Props.C04
